@@ -16,13 +16,15 @@
 (* Values.  Absent entries are absent from the DOMAIN of a table (partial  *)
 (* functions), never a null value.  All keys are strings (they come from   *)
 (* and go to JSON).  An operation is a record                              *)
-(*   [id, ni, typ, kind, key, pl, nhs, bk, g, gni, bad]                    *)
+(*   [id, ni, typ, kind, key, pl, nhs, bk, g, gni, bad, eid, noeid]        *)
 (*   typ  \in {"ADD","REPLACE","DELETE"}, kind \in {"nh","nhg","v4","v6",  *)
 (*   "mpls"}; pl is an opaque payload identity; nhs (kind nhg) the list of *)
 (*   next-hop indices as given (duplicates possible); bk the backup group  *)
 (*   ("" none; never checked); g/gni (top-level kinds) the group and the   *)
 (*   network instance it is looked up in ("" = own); bad # "" names a      *)
-(*   malformation class (C12) - such an operation must fail cleanly.       *)
+(*   malformation class (C12) - such an operation must fail cleanly; eid   *)
+(*   and noeid (election id stamped on the operation) matter only to       *)
+(*   GribiServer.                                                          *)
 (***************************************************************************)
 EXTENDS Integers, Sequences, FiniteSets, TLC
 
@@ -63,7 +65,7 @@ Key(op)  == IF op.kind \in TopKinds THEN op.kind \o ":" \o op.key ELSE op.key
 
 Entry(op) == CASE op.kind = "nh"  -> [pl |-> op.pl]
                [] op.kind = "nhg" -> [pl |-> op.pl, nhs |-> Range(op.nhs), bk |-> op.bk]
-               [] OTHER           -> [pl |-> op.pl, g |-> op.g, gni |-> op.gni]
+               [] OTHER           -> [pl |-> op.pl, g |-> op.g, gni |-> op.gni, kd |-> op.kind]
 
 SetE(R, ni, tab, k, e) == [R EXCEPT ![ni] = [@ EXCEPT ![tab] = Put(@, k, e)]]
 DelE(R, ni, tab, k)    == [R EXCEPT ![ni] = [@ EXCEPT ![tab] = Del(@, k)]]
